@@ -184,6 +184,59 @@ HARNESSES = [
     ),
 ]
 
+
+def h06_rabbit_iteration(S):
+    """RabbitMQ, a recurring job whose iteration fails once and is retried at once: after the iteration (and after the
+    worker's channel is gone) exactly one message with that id exists - the next iteration, waiting for its slot."""
+    import asyncio
+    from fractions import Fraction
+    from repid import Job, MessageDependency, Router, Worker
+    from repid.converter import BasicConverter
+    from harness.common import World
+
+    confirm = [0, 3][S.pick("confirm_after_delivery", 2)]
+    succeed_on_retry = S.flag("retry_succeeds")
+    runs = []
+    out = {}
+
+    async def main(loop):
+        w = World(backend="rabbit")
+        w.srv.confirm_turns = confirm
+        await w.open(record=False)
+        r = Router()
+
+        from harness.actors import counting_failer_fn
+        r.actor(name="job", converter=BasicConverter, retry_policy=lambda retry_number=1: real_timedelta(0))(counting_failer_fn(runs, succeed_on_retry))
+
+        await Job("job", id_="m1", retries=1, deferred_by=real_timedelta(hours=1), _connection=w.conn).enqueue()
+        # make the first iteration due now: move it from the delayed queue to the main one, as the broker would on expiry
+        dq = w.srv.queues["default:delayed"]
+        for m in list(dq.ready):
+            w.srv._expire(dq, m, loop)
+        worker = Worker(routers=[r], handle_signals=[], _connection=w.conn, graceful_shutdown_time=1.0, messages_limit=2)
+        try:
+            await asyncio.wait_for(worker.run(), timeout=20)
+            out["returned"] = True
+        except asyncio.TimeoutError:
+            out["returned"] = False
+        await asyncio.sleep(Fraction(1, 2))
+        for ch in list(w.srv.channels):
+            ch.close()                      # the worker process ends: the server takes back whatever was not settled
+        await asyncio.sleep(Fraction(1, 2))
+        out["places"] = {i: sorted(p[0] for p in v) for i, v in w.places().items()}
+        pl = w.places().get("m1", [])
+        out["params"] = [p[1].parameters for p in pl]
+
+    run_async(main)
+    S.cover("rabbit-iteration")
+    S.check("worker-returns", out["returned"], info=f"runs={runs}")
+    S.check("attempts-of-the-iteration", runs == [0, 1], info=str(runs))
+    S.check("exactly-one-successor", out["places"].get("m1", []) == ["delayed"],
+            info=f"confirm after delivery={bool(confirm)}: after the iteration the job is in {out['places'].get('m1')}, expected ['delayed']")
+    if out["places"].get("m1", []) == ["delayed"]:
+        S.check("successor-starts-with-counter-zero", out["params"][0].retries.already_tried == 0)
+
+
 from harness.c05 import h05_rabbit, h05_redis  # noqa: E402
 
 HARNESSES += [
@@ -219,3 +272,10 @@ HARNESSES.append(
             covers=["stopped"],
             stubs=["signal delivery = the captured handler is called from inside the actor"]))
 ASSUMPTIONS = ["in-memory broker; iteration finish instants are free symbolic values constrained only by 'after its slot, non-decreasing'"]
+HARNESSES.append(Harness(
+    name="H06-rabbit-iteration", scenario=h06_rabbit_iteration, workers=4,
+    bounds={"job": "deferred_by 1 h, retries 1, zero back-off; first attempt fails, the retry fails or succeeds", "publisher confirm": "before or 3 loop turns after the delivery it causes",
+            "afterwards": "the worker's channel is closed (unsettled deliveries go back)"},
+    functions=["connections/rabbitmq/message_broker.py:RabbitMessageBroker.requeue", "connections/rabbitmq/consumer.py:_RabbitConsumer.on_new_message",
+               "_processor.py:_Processor.report_to_broker"],
+    covers=["rabbit-iteration"], stubs=["fake AMQP server; the first expiry is performed by the harness"]))
